@@ -16,7 +16,7 @@ from .common import *  # noqa
 from ..effects import Effects, SCALAR_ANNOTATIONS, index_is_basic
 from ..vg import Interp, strip_alloc
 
-EXTERNAL = ("param", "ctor", "global")
+EXTERNAL = ("param", "ctor", "global", "state")     # state: arrays cached on the instance by another method / the constructor
 
 # file-only side outputs requested through a bare path parameter (function, path parameter): reason
 SAVE_EXCEPTIONS = {
@@ -427,6 +427,20 @@ def check_saves(run: Run, pkg: Package, ef: Effects, fi) -> None:
             continue
         d0 = strip_views(data)
         same = any(d0 == r for r in ret_objs)
+        # every return that can execute after the save (guards compatible with the save's) must hand back the saved object
+        bad_ret = None
+        if same:
+            sg = {(c, pol) for c, pol in ev.guards}
+            for r in it.returns:
+                if r.seq < ev.seq or r.data["value"] == NONE:
+                    continue
+                if any((c, not pol) in sg for c, pol in r.guards):
+                    continue
+                if not any(d0 == strip_views(x) for x in components(r.data["value"])):
+                    bad_ret = r
+                    break
+            if bad_ret is not None:
+                same = False
         if not same and it.returns:
             # the saved object may be stored on self and returned by value later: accept attr state
             pass
@@ -437,7 +451,8 @@ def check_saves(run: Run, pkg: Package, ef: Effects, fi) -> None:
                ("saved object is returned" if same else f"saved {show(strip_alloc(d0))[:70]} is not among the returned objects")
                + ("" if later is None else f"; modified afterwards by {key_of(later)[:70]}"),
                witness=None if ok2 else (f"file '{prim}' holds {show(strip_alloc(d0))[:60]} but the call returns "
-                                         f"{show(strip_alloc(it.returns[0].data['value']))[:60]}" if not same else
+                                         f"{show(strip_alloc((bad_ret or it.returns[0]).data['value']))[:60]}"
+                                         + (f" (return at line {bad_ret.lineno})" if bad_ret is not None else "") if not same else
                                          f"object written at line {ev.lineno} is changed at line {later.lineno} before it is returned"),
                loc=loc_of(it, ev))
 
